@@ -17,10 +17,13 @@ EXPLANATION = (
     "numpy name map; every registered method must be an elementwise numpy ufunc or an in-package indicator returning "
     "floats; the shunting-yard pop rule is decided exhaustively over all orderings of (associativity, 0, p, p_top); "
     "operand order in parse/evaluate; stack safety and the rejection checks of infix_to_postfix/parse (arity x depth "
-    "enumeration); variable resolution and name-clash checks of Function.membership"
+    "enumeration); variable resolution and name-clash checks of Function.membership; infix_to_postfix and parse interpreted "
+    "abstractly as pushdown transducers over the token classes of the extracted table and compared with the shunting-yard / "
+    "tree-building reference on every configuration up to a depth bound (PD, PD2); a named constant (arity-0 function) is popped "
+    "by every binary operator (T1 constant)"
 )
 ASSUMPTIONS = ["numpy ufuncs named in the map compute the mathematical function of that name elementwise"]
-FLOORS = {"PD": 4, "PD2": 4, "T1": 13, "T12": 34, "V6": 34 + 13, "V7": 6, "G1": 1, "W2": 2, "X3": 9, "X6": 3, "W3": 5}
+FLOORS = {"PD": 4, "PD2": 4, "T1": 14, "T12": 34, "V6": 34 + 13, "V7": 6, "G1": 1, "W2": 2, "X3": 9, "X6": 3, "W3": 5}
 
 # Appendix A.1: strictly decreasing binding strength
 LADDER = [["!", "~"], ["^", "**", ".-", ".+"], ["*", "/", "%"], ["+", "-"], ["and"], ["or"]]
@@ -57,6 +60,7 @@ def run(check: Check) -> None:
     by_name = {e.name: e for e in table}
     file = fac.file
     ladder_rules(check, table, by_name, file)
+    constant_rules(check, table, file)
     method_rules(check, table, by_name, file)
     indicator_rules(check)
     shunting.g1_pop_rule(check)
@@ -108,6 +112,24 @@ def ladder_rules(check: Check, table: list[Element], by_name: dict[str, Element]
                       f"operator `{e.name}`: tier {tier_of[e.name]}, associativity {'right' if e.associativity > 0 else 'left'}, arity {e.arity}"
                       if not problems else f"operator `{e.name}`: " + "; ".join(problems[:3]), f"{file}:{e.lineno}",
                       {"precedence": e.precedence, "associativity": e.associativity, "arity": e.arity})
+
+
+def constant_rules(check: Check, table: list[Element], file: str) -> None:
+    """T1-const: a registered function of arity 0 (a named constant such as `pi`) is written without parentheses, so it waits on the
+    operator stack like an operator and leaves it only through the precedence comparison of the next operator: to be an operand
+    of that operator it must be popped by *every* operator, i.e. bind at least as tightly as every left-associative operator and
+    strictly tighter than every right-associative one (`pi ^ 2` is pi squared)."""
+    ops = [e for e in table if e.kind == "Operator" and e.arity == 2]  # only a binary operator can follow an operand
+    for e in table:
+        if e.kind != "Function" or e.arity != 0:
+            continue
+        bad = [o for o in ops if not ((o.associativity < 0 and o.precedence <= e.precedence) or (o.associativity > 0 and o.precedence < e.precedence))]
+        check.require(not bad, "T1", f"FunctionFactory/{e.name}/constant",
+                      f"constant `{e.name}` (precedence {e.precedence}) is popped to the output by every operator that follows it" if not bad else
+                      f"constant `{e.name}` has precedence {e.precedence}: operator `{bad[0].name}` ({'right' if bad[0].associativity > 0 else 'left'}-associative, "
+                      f"precedence {bad[0].precedence}) does not pop it, so `{e.name} {bad[0].name} x` is parsed with the constant *after* the operator "
+                      "(it becomes the operand of whatever comes next, or the formula is rejected)", f"{file}:{e.lineno}",
+                      {"precedence": e.precedence, "not_popped_by": [o.name for o in bad]})
 
 
 def method_rules(check: Check, table: list[Element], by_name: dict[str, Element], file: str) -> None:
